@@ -874,3 +874,341 @@ Proof.
            ++ intros k. rewrite sortZ_In, in_app_iff, Hprev. tauto.
     + right. discriminate.
 Qed.
+
+(* --- every operation ------------------------------------------------------------------------------ *)
+
+Theorem invm_step : forall s o, InvA s -> InvM s -> ok_op s o -> InvM (fst (step s o)).
+Proof.
+  intros s o HA H Hop. destruct o; cbn [step].
+  - apply invm_new_msg; exact H.
+  - apply invm_new_std; assumption.
+  - apply invm_new_enum; exact H.
+  - apply invm_new_enumsig; assumption.
+  - apply invm_new_mux; assumption.
+  - destruct (vmsg s m && vsig s x); [apply invm_append|]; exact H.
+  - destruct (vmsg s m && vsig s x); [apply invm_insert|]; exact H.
+  - destruct (vmsg s m); [apply invm_remove|]; exact H.
+  - destruct (vmsg s m); [apply invm_remove_all|]; exact H.
+  - destruct (vmsg s m); [apply invm_shift|]; exact H.
+  - destruct (vmsg s m); [apply invm_shift|]; exact H.
+  - destruct (vmsg s m); [apply invm_compact|]; exact H.
+  - destruct (vmsg s m); [apply invm_resize|]; exact H.
+  - destruct (vmsg s m); exact H.
+  - destruct (vsig s x); [apply invm_set_type|]; exact H.
+  - destruct (vsig s x && venum s e); [apply invm_set_enum|]; exact H.
+  - destruct (venum s e); [apply invm_add_value|]; exact H.
+  - destruct (venum s e); [apply invm_remove_value|]; exact H.
+  - destruct (venum s e); [apply invm_remove_all_values|]; exact H.
+  - destruct (venum s e); [cbn [fst]; mcore_same s H|exact H].
+  - destruct (vval s v); [apply invm_update_index|]; exact H.
+  - destruct (vmux s u) eqn:Eu; cbn [andb]; [|exact H]. destruct (vsig s x) eqn:Ex; [|exact H].
+    apply invm_mux_insert; assumption.
+  - destruct (vmux s u); [apply invm_mux_remove|]; exact H.
+  - destruct (vmux s u) eqn:Eu; [apply invm_mux_clear_group; assumption|exact H].
+  - destruct (vmux s u); [apply invm_mux_clear_all|]; exact H.
+  - destruct (vmux s u); [apply invm_mux_shift|]; exact H.
+  - destruct (vmux s u); [apply invm_mux_shift|]; exact H.
+Qed.
+
+Lemma invm_init : InvM init.
+Proof.
+  constructor.
+  - intros u c g K. cbn in K. discriminate.
+  - intros u x F. cbn in F. discriminate.
+  - intros u x ids C. cbn in C. discriminate.
+  - intros u g x Hin. unfold gget in Hin. cbn in Hin. destruct g; destruct Hin.
+  - intros u x. cbn. split; [discriminate|intros [C|C]; [discriminate|congruence]].
+  - intros u g x Hin. unfold gget in Hin. cbn in Hin. destruct g; destruct Hin.
+  - intros u x C. cbn in C. discriminate.
+  - intros u x _. cbn. repeat split.
+  - intros u x F. cbn in F. discriminate.
+Qed.
+
+Lemma inv_both_from : forall ops s, InvA s -> InvM s -> ok_hist_from s ops ->
+  InvA (fold_left (fun s o => fst (step s o)) ops s) /\ InvM (fold_left (fun s o => fst (step s o)) ops s).
+Proof.
+  induction ops as [|o r IH]; intros s HA HM Hh; cbn [fold_left]; [split; assumption|].
+  destruct Hh as [Ho Hr]. apply IH; [apply inv_step; assumption|apply invm_step; assumption|exact Hr].
+Qed.
+
+Theorem invm_reachable : forall ops, ok_hist ops -> InvM (run ops).
+Proof. intros ops Hh. unfold run. apply (inv_both_from ops init inv_init invm_init Hh). Qed.
+
+(* the membership theorems, in the words of the property *)
+Lemma membership_fixed_reachable : forall ops, ok_hist ops -> forall u x, ufixed (run ops) u x = true ->
+  (forall g, (Z.of_nat g < mux_count (run ops) u) -> In x (gget (run ops) u g))
+  /\ ugids (run ops) u x = None.
+Proof.
+  intros ops Hh u x F. pose proof (invm_reachable ops Hh) as H.
+  destruct (m_fixed _ H u x F) as [A B]. split; [|exact A].
+  intros g Hg. apply B. destruct (m_fixed_mux _ H u x F) as [Hm Hu]. unfold is_mux in Hm. unfold mux_count in Hg.
+  destruct (kind (run ops) u) as [| |c gs] eqn:K; try discriminate.
+  destruct (m_len _ H u c gs K Hu) as [El _]. rewrite El. lia.
+Qed.
+
+Lemma membership_ids_reachable : forall ops, ok_hist ops -> forall u x ids, ugids (run ops) u x = Some ids ->
+  (forall g : nat, In x (gget (run ops) u g) <-> In (Z.of_nat g) ids)
+  /\ NoDup ids /\ ids <> [] /\ (forall g, In g ids -> 0 <= g < mux_count (run ops) u) /\ ufixed (run ops) u x = false.
+Proof.
+  intros ops Hh u x ids E. pose proof (invm_reachable ops Hh) as H. pose proof (inv_reachable ops Hh) as HA.
+  destruct (m_ids _ H u x ids E) as (A & B & C & D & G). split; [exact G|]. split; [exact B|]. split; [exact C|]. split; [|exact A].
+  intros g Hg. destruct (D g Hg) as [D1 D2]. split; [exact D1|].
+  (* a non-empty group exists, so u is an allocated multiplexer *)
+  assert (Hin : In x (gget (run ops) u (Z.to_nat g))) by (apply G; rewrite Z2Nat.id by lia; exact Hg).
+  pose proof (a_alloc _ HA (LG u (Z.to_nat g)) x Hin) as Hx.
+  unfold mux_count. destruct (kind (run ops) u) as [n|e|c gs] eqn:K.
+  - exfalso. pose proof (a_ok _ HA (LG u (Z.to_nat g))) as Hok. cbn [lay lsz] in Hok. unfold mux_gsize in Hok. rewrite K in Hok.
+    pose proof (ok_In _ _ _ _ _ _ Hok Hin). lia.
+  - exfalso. pose proof (a_ok _ HA (LG u (Z.to_nat g))) as Hok. cbn [lay lsz] in Hok. unfold mux_gsize in Hok. rewrite K in Hok.
+    pose proof (ok_In _ _ _ _ _ _ Hok Hin). lia.
+  - destruct (Nat.lt_ge_cases u (nsig (run ops))) as [Hu|Hu].
+    + destruct (m_len _ H u c gs K Hu) as [El _]. rewrite El in D2. lia.
+    + exfalso. rewrite (a_unalloc _ HA u Hu) in D2. cbn in D2. lia.
+Qed.
+
+(* every signal of a group is fixed or grouped, and its parent multiplexer is that multiplexer *)
+Lemma membership_cover_reachable : forall ops, ok_hist ops -> forall u g x, In x (gget (run ops) u g) ->
+  (ufixed (run ops) u x = true \/ ugids (run ops) u x <> None) /\ pmux (run ops) x = Some u.
+Proof.
+  intros ops Hh u g x Hin. pose proof (invm_reachable ops Hh) as H. split; [apply (m_in _ H u g x Hin)|apply (m_pmux _ H u g x Hin)].
+Qed.
+
+(* --- the hypotheses that remain once the membership invariant is available ----------------------- *)
+
+(* C05's link invariant restricted to x, message level only: a top-level signal knows its message
+   and is registered there; a signal in no layout has no parent *)
+Definition link_top (s : state) (x : nat) : Prop :=
+  (forall m, In x (glay s m) -> pmux s x = None /\ pmsg s x = Some m /\ memb x (gsigs s m) = true)
+  /\ (~ attached s x -> pmux s x = None /\ pmsg s x = None).
+
+Definition resize_ok_w (s : state) (x : nat) : Prop := link_top s x /\ single_followers s x.
+Definition enum_resize_ok_w (s : state) (e : nat) : Prop :=
+  (forall x, In x (erefs s e) -> resize_ok_w s x) /\ unshared s (erefs s e).
+
+Definition ok_op_w (s : state) (o : op) : Prop :=
+  match o with
+  | OAppend m x | OInsert m x _ => ~ attached s x
+  | OMuxInsert u x _ _ =>
+      ~ attached s x \/ (memb x (usigs s u) = true /\ forall L, In x (lay s L) -> exists g, L = LG u g)
+  | OSetType x _ | OSetEnum x _ => resize_ok_w s x
+  | OAddValue e idx => emax s e < idx -> esize_of (emin s e) idx <> esize s e -> enum_resize_ok_w s e
+  | OUpdateIndex v idx =>
+      forall e, vpar s v = Some e ->
+        esize_of (emin s e) (Z.max (Z.max 0 idx) (max_index s (lrem v (evals s e)))) <> esize s e ->
+        enum_resize_ok_w s e
+  | OSetMinSize e n => forall x, In x (erefs s e) -> attached s x -> esize_of n (emax s e) <= esize s e
+  | _ => True
+  end.
+
+Lemma link_ok_of_top : forall s x, InvA s -> InvM s -> link_top s x -> link_ok s x.
+Proof.
+  intros s x HA H [Ltop Lfree]. split; [|split; [|split]].
+  - exact Ltop.
+  - intros u g Hin. pose proof (m_pmux s H u g x Hin) as P. split; [exact P|].
+    assert (Hmem : memb x (usigs s u) = true) by (apply (m_usigs s H); apply (m_in s H u g x Hin)). split; [exact Hmem|].
+    unfold groups_of. destruct (ufixed s u x) eqn:F.
+    + destruct (m_fixed_mux s H u x F) as [Hmx Hu]. unfold is_mux in Hmx. unfold mux_count. destruct (kind s u) as [| |c gs] eqn:K; try discriminate.
+      destruct (m_len s H u c gs K Hu) as [El Hc]. eexists. split; [reflexivity|]. apply in_seq.
+      assert (g < length (ugroups s u))%nat.
+      { destruct (Nat.lt_ge_cases g (length (ugroups s u))) as [A|A]; [exact A|]. unfold gget in Hin. rewrite nth_overflow in Hin by exact A. destruct Hin. }
+      lia.
+    + destruct (m_in s H u g x Hin) as [C|C]; [congruence|]. destruct (ugids s u x) as [ids|] eqn:Ei; [|congruence].
+      destruct (m_ids s H u x ids Ei) as (_ & _ & _ & _ & Hiff). eexists. split; [reflexivity|].
+      apply in_map_iff. exists (Z.of_nat g). split; [lia|apply Hiff; exact Hin].
+  - intros u gs P E. unfold groups_of in E. destruct (ufixed s u x); [inversion E; apply seq_NoDup|].
+    destruct (ugids s u x) as [ids|] eqn:Ei; [|discriminate]. inversion E; subst gs.
+    destruct (m_ids s H u x ids Ei) as (_ & Hnd & _ & Hval & _). apply NoDup_map_to_nat; [exact Hnd|]. intros g Hg. apply (Hval g Hg).
+  - exact Lfree.
+Qed.
+
+Lemma ok_op_of_w : forall s o, InvA s -> InvM s -> ok_op_w s o -> ok_op s o.
+Proof.
+  intros s o HA H Hw. destruct o; cbn [ok_op ok_op_w] in *; try exact Hw; try exact I.
+  - destruct Hw as [Lt Hs]. split; [apply link_ok_of_top; assumption|exact Hs].
+  - destruct Hw as [Lt Hs]. split; [apply link_ok_of_top; assumption|exact Hs].
+  - intros A B. destruct (Hw A B) as [R U]. split; [|exact U]. intros x Hx. destruct (R x Hx) as [Lt Hs].
+    split; [apply link_ok_of_top; assumption|exact Hs].
+  - intros e A B. destruct (Hw e A B) as [R U]. split; [|exact U]. intros x Hx. destruct (R x Hx) as [Lt Hs].
+    split; [apply link_ok_of_top; assumption|exact Hs].
+  - intros ids Ei g Eg g' Hin. subst ids. destruct (m_ids s H u x [g] Ei) as (_ & _ & _ & Hval & Hiff).
+    apply Hiff in Hin. destruct Hin as [Hin|[]]. lia.
+  - intros ids Ei g Eg g' Hin. subst ids. destruct (m_ids s H u x [g] Ei) as (_ & _ & _ & Hval & Hiff).
+    apply Hiff in Hin. destruct Hin as [Hin|[]]. lia.
+Qed.
+
+Fixpoint ok_hist_w_from (s : state) (ops : list op) : Prop :=
+  match ops with
+  | [] => True
+  | o :: r => ok_op_w s o /\ ok_hist_w_from (fst (step s o)) r
+  end.
+Definition ok_hist_w (ops : list op) : Prop := ok_hist_w_from init ops.
+
+Lemma ok_hist_of_w_from : forall ops s, InvA s -> InvM s -> ok_hist_w_from s ops -> ok_hist_from s ops.
+Proof.
+  induction ops as [|o r IH]; intros s HA H Hw; cbn [ok_hist_from ok_hist_w_from] in *; [exact I|].
+  destruct Hw as [Ho Hr]. pose proof (ok_op_of_w s o HA H Ho) as Hop. split; [exact Hop|].
+  apply IH; [apply inv_step; assumption|apply invm_step; assumption|exact Hr].
+Qed.
+
+Theorem ok_hist_of_w : forall ops, ok_hist_w ops -> ok_hist ops.
+Proof. intros ops Hw. apply (ok_hist_of_w_from ops init inv_init invm_init Hw). Qed.
+
+(* --- insert_refused_iff ---------------------------------------------------------------------------- *)
+
+Definition is_ok (r : result) : Prop := r = ROk.
+
+(* [b, b + size x) lies inside group g of u and is free there *)
+Definition range_free (s : state) (u g x : nat) (b : Z) : Prop :=
+  0 <= b /\ b + sz s x <= mux_gsize s u
+  /\ forall t, In t (gget s u g) -> b + sz s x <= rel s t \/ rel s t + sz s t <= b.
+
+(* the name of x is free: x is already known to the multiplexer, or unknown to the owning message *)
+Definition name_free (s : state) (u x : nat) : Prop :=
+  memb x (unames s u) = true \/ match pmsg s u with Some m => memb x (gnames s m) = false | None => True end.
+
+Lemma verify_insert_range_free : forall s u g x b, InvA s ->
+  (verify_insert (sz s) (rel s) (mux_gsize s u) (gget s u g) x b = None <-> range_free s u g x b).
+Proof.
+  intros s u g x b HA. pose proof (a_ok s HA (LG u g)) as Hok. cbn [lay lsz] in Hok.
+  rewrite (verify_insert_spec _ _ _ _ _ _ Hok). unfold range_free, disjoint_from. pose proof (a_size s HA x).
+  split; [intros (A & B & C & D); repeat split; try lia; exact D|intros (A & B & C); repeat split; try lia; exact C].
+Qed.
+
+Lemma first_err_none_iff : forall {A} (f : A -> option cause) l, first_err f l = None <-> forall a, In a l -> f a = None.
+Proof.
+  intros A f l. split; [apply first_err_none|]. induction l as [|a r IH]; intros Hall; cbn [first_err]; [reflexivity|].
+  rewrite (Hall a (or_introl eq_refl)). apply IH. intros a' Ha'. apply Hall. right; exact Ha'.
+Qed.
+
+Lemma dedup_In : forall l seen g, In g (dedup l seen) <-> In g l /\ ~ In g seen.
+Proof.
+  induction l as [|a r IH]; intros seen g; cbn [dedup]; [cbn; tauto|].
+  destruct (membZ a seen) eqn:E.
+  - rewrite IH. apply membZ_In in E. cbn [In]. split; [tauto|]. intros [[->|Hin] Hn]; [contradiction|tauto].
+  - assert (Hn : ~ In a seen) by (intros C; apply membZ_In in C; congruence).
+    cbn [In]. rewrite IH. cbn [In]. split.
+    + intros [->|[Hin Hns]]; [tauto|tauto].
+    + intros [[->|Hin] Hns]; [left; reflexivity|]. destruct (Z.eq_dec a g) as [->|NE]; [left; reflexivity|right]. tauto.
+Qed.
+
+Definition insert_conditions (s : state) (u x : nat) (b : Z) (gids : list Z) : Prop :=
+  match gids with
+  | [] => memb x (usigs s u) = false /\ forall g, (g < length (ugroups s u))%nat -> range_free s u g x b
+  | _ => forall g, In g gids ->
+           0 <= g < mux_count s u /\ ~ In x (gget s u (Z.to_nat g))
+           /\ (memb x (usigs s u) = true -> b = rel s x) /\ range_free s u (Z.to_nat g) x b
+  end.
+
+Definition name_clash (s : state) (u x : nat) : bool :=
+  if memb x (unames s u) then false else match pmsg s u with Some m => memb x (gnames s m) | None => false end.
+
+Lemma name_clash_free : forall s u x, name_clash s u x = false <-> name_free s u x.
+Proof.
+  intros. unfold name_clash, name_free. destruct (memb x (unames s u)).
+  - split; [intros _; left; reflexivity|reflexivity].
+  - destruct (pmsg s u) as [m|].
+    + destruct (memb x (gnames s m)).
+      * split; [discriminate|intros [C|C]; discriminate].
+      * split; [intros _; right; reflexivity|reflexivity].
+    + split; [intros _; right; exact I|reflexivity].
+Qed.
+
+(* x is held by group g of u exactly when it is fixed or g is one of its ids *)
+Lemma holds_iff : forall s u x g, InvM s -> (g < length (ugroups s u))%nat ->
+  (In x (gget s u g) <-> ufixed s u x = true \/ In (Z.of_nat g) (match ugids s u x with Some l => l | None => [] end)).
+Proof.
+  intros s u x g H Hg. split.
+  - intros Hin. destruct (m_in s H u g x Hin) as [F|F]; [left; exact F|right].
+    destruct (ugids s u x) as [ids|] eqn:E; [|congruence]. apply (m_ids s H u x ids E). exact Hin.
+  - intros [F|F]; [apply (m_fixed s H u x F); exact Hg|].
+    destruct (ugids s u x) as [ids|] eqn:E; [|destruct F]. apply (m_ids s H u x ids E). exact F.
+Qed.
+
+(* Insertion without group ids is accepted exactly when the name is free, the signal is not yet in
+   the multiplexer and the range is free in every group; insertion with group ids exactly when the
+   name is free and every id is inside 0..count-1, does not already hold the signal, the start bit
+   is the one the signal already has (if it is in the multiplexer) and the range is free there. *)
+Lemma mux_insert_accepted_iff : forall s u x b gids, InvA s -> InvM s -> vmux s u = true ->
+  (is_ok (snd (step_mux_insert s u x b gids)) <-> name_free s u x /\ insert_conditions s u x b gids).
+Proof.
+  intros s u x b gids HA H Hu. rewrite <- name_clash_free. unfold step_mux_insert, is_ok.
+  fold (name_clash s u x). destruct (name_clash s u x); [cbn [snd]; split; [discriminate|intros [C _]; discriminate]|].
+  assert (Hmux : is_mux s u = true) by (unfold vmux in Hu; apply andb_true_iff in Hu; tauto).
+  assert (Hult : (u < nsig s)%nat) by (apply vmux_lt; exact Hu).
+  assert (Hlen : length (ugroups s u) = Z.to_nat (mux_count s u) /\ 1 <= mux_count s u).
+  { unfold is_mux in Hmux. unfold mux_count. destruct (kind s u) as [| |c g] eqn:K; try discriminate. apply (m_len s H u c g K Hult). }
+  destruct Hlen as [El Hc].
+  destruct gids as [|g0 gr]; unfold insert_conditions.
+  - destruct (memb x (usigs s u)); [cbn [snd]; split; [discriminate|intros [_ [C _]]; discriminate]|].
+    destruct (first_err (fun l => verify_insert (sz s) (rel s) (mux_gsize s u) l x b) (ugroups s u)) eqn:Ev.
+    + cbn [snd]. split; [discriminate|]. intros [_ [_ Hall]]. exfalso.
+      assert (first_err (fun l => verify_insert (sz s) (rel s) (mux_gsize s u) l x b) (ugroups s u) = None); [|congruence].
+      apply first_err_none_iff. intros l Hl. apply In_nth with (d := []) in Hl. destruct Hl as [g [Hg <-]].
+      apply (verify_insert_range_free s u g x b HA). apply Hall. exact Hg.
+    + destruct (insert_all (rel s) (ugroups s u) x b). cbn [snd]. split; [intros _|reflexivity]. split; [reflexivity|split; [reflexivity|]].
+      intros g Hg. apply (verify_insert_range_free s u g x b HA). apply (first_err_none _ _ Ev). apply nth_In. exact Hg.
+  - set (ids := dedup (g0 :: gr) []).
+    set (present := memb x (usigs s u)). set (fixed := ufixed s u x).
+    set (prev := match ugids s u x with Some l => l | None => [] end).
+    assert (Hids : forall g, In g ids <-> In g (g0 :: gr)) by (intros g; unfold ids; rewrite dedup_In; cbn [In]; tauto).
+    assert (Hcond : forall g, 0 <= g < mux_count s u ->
+       ((if fixed || membZ g prev then Some Duplicated
+         else if present && negb (b =? rel s x) then Some Duplicated
+              else verify_insert (sz s) (rel s) (mux_gsize s u) (gget s u (Z.to_nat g)) x b) = None
+        <-> ~ In x (gget s u (Z.to_nat g)) /\ (present = true -> b = rel s x) /\ range_free s u (Z.to_nat g) x b)).
+    { intros g Hg. assert (Hgl : (Z.to_nat g < length (ugroups s u))%nat) by (rewrite El; lia).
+      rewrite (holds_iff s u x (Z.to_nat g) H Hgl). rewrite Z2Nat.id by lia. fold prev. fold fixed.
+      destruct fixed; cbn [orb]; [split; [discriminate|intros [C _]; exfalso; apply C; left; reflexivity]|].
+      destruct (membZ g prev) eqn:Em.
+      - apply membZ_In in Em. split; [discriminate|intros [C _]; exfalso; apply C; right; exact Em].
+      - assert (Hn : ~ In g prev) by (intros C; apply membZ_In in C; congruence).
+        destruct present; cbn [andb].
+        + destruct (Z.eqb_spec b (rel s x)) as [E|NE]; cbn [negb].
+          * rewrite (verify_insert_range_free s u (Z.to_nat g) x b HA). split; [intros R; split; [intros [C|C]; [discriminate|contradiction]|split; [intros _; exact E|exact R]]|intros (_ & _ & R); exact R].
+          * split; [discriminate|intros (_ & C & _); exfalso; apply NE; apply C; reflexivity].
+        + rewrite (verify_insert_range_free s u (Z.to_nat g) x b HA). split; [intros R; split; [intros [C|C]; [discriminate|contradiction]|split; [discriminate|exact R]]|intros (_ & _ & R); exact R]. }
+    destruct (verify_ids s u x b present fixed prev ids) eqn:Ev.
+    + cbn [snd]. split; [discriminate|]. intros [_ Hall]. exfalso.
+      assert (verify_ids s u x b present fixed prev ids = None); [|congruence].
+      unfold verify_ids. apply first_err_none_iff. intros g Hg. apply Hids in Hg. destruct (Hall g Hg) as (A & B & C & D).
+      unfold verify_gid. destruct (Z.ltb_spec g 0); [lia|]. destruct (Z.leb_spec (mux_count s u) g); [lia|].
+      apply (Hcond g A). split; [exact B|split; [exact C|exact D]].
+    + destruct (insert_ids (rel s) (ugroups s u) ids x b). cbn [snd]. split; [intros _|reflexivity]. split; [reflexivity|].
+      intros g Hg. apply Hids in Hg. unfold verify_ids in Ev. pose proof (first_err_none _ _ Ev g Hg) as Hv. cbn beta in Hv.
+      unfold verify_gid in Hv. destruct (Z.ltb_spec g 0); [discriminate|]. destruct (Z.leb_spec (mux_count s u) g); [discriminate|].
+      assert (A : 0 <= g < mux_count s u) by lia. split; [exact A|]. apply (Hcond g A). exact Hv.
+Qed.
+
+(* --- statements over histories with the weaker hypotheses ------------------------------------------ *)
+
+Lemma inv_reachable_w : forall ops, ok_hist_w ops -> InvA (run ops) /\ InvM (run ops).
+Proof. intros ops Hw. pose proof (ok_hist_of_w ops Hw) as Hh. split; [apply inv_reachable|apply invm_reachable]; exact Hh. Qed.
+
+Lemma step_keeps_invariants : forall s o, InvA s -> InvM s -> ok_op_w s o ->
+  InvA (fst (step s o)) /\ InvM (fst (step s o)).
+Proof.
+  intros s o HA H Hw. pose proof (ok_op_of_w s o HA H Hw) as Hop. split; [apply inv_step|apply invm_step]; assumption.
+Qed.
+
+(* GetStartBit: one step of the recursion *)
+Lemma abs_start_step : forall f s x u, pmux s x = Some u ->
+  abs_start (S f) s x = abs_start f s u + selw (mux_count s u) + rel s x.
+Proof. intros f s x u E. cbn [abs_start]. rewrite E. reflexivity. Qed.
+Lemma abs_start_top : forall f s x, pmux s x = None -> abs_start f s x = rel s x.
+Proof. intros f s x E. destruct f; cbn [abs_start]; [reflexivity|rewrite E; reflexivity]. Qed.
+
+Definition abs_start_bit_full : Prop :=
+  forall ops, ok_hist_w ops -> forall x u, pmux (run ops) x = Some u ->
+    start_bit (run ops) x = start_bit (run ops) u + selw (mux_count (run ops) u) + rel (run ops) x.
+
+Lemma membership_fixed_w : forall ops, ok_hist_w ops -> forall u x, ufixed (run ops) u x = true ->
+  (forall g, (Z.of_nat g < mux_count (run ops) u) -> In x (gget (run ops) u g))
+  /\ ugids (run ops) u x = None.
+Proof. intros ops Hw. apply membership_fixed_reachable. apply ok_hist_of_w. exact Hw. Qed.
+Lemma membership_ids_w : forall ops, ok_hist_w ops -> forall u x ids, ugids (run ops) u x = Some ids ->
+  (forall g : nat, In x (gget (run ops) u g) <-> In (Z.of_nat g) ids)
+  /\ NoDup ids /\ ids <> [] /\ (forall g, In g ids -> 0 <= g < mux_count (run ops) u) /\ ufixed (run ops) u x = false.
+Proof. intros ops Hw. apply membership_ids_reachable. apply ok_hist_of_w. exact Hw. Qed.
+Lemma membership_cover_w : forall ops, ok_hist_w ops -> forall u g x, In x (gget (run ops) u g) ->
+  (ufixed (run ops) u x = true \/ ugids (run ops) u x <> None) /\ pmux (run ops) x = Some u.
+Proof. intros ops Hw. apply membership_cover_reachable. apply ok_hist_of_w. exact Hw. Qed.
